@@ -242,3 +242,10 @@ Definition single_source_shape (s : sig) : bool :=
 
 Lemma tie_lifetimes_shape : forallb (fun p => single_source_shape (snd p)) gen_signatures = true.
 Proof. vm_compute. reflexivity. Qed.
+
+(* ---- thin bodies: methods whose body is one expression (coq/gen/GenSigs.v gen_thin_bodies) ---- *)
+Definition thin_of (header method : string) : option string :=
+  match find (fun r => match r with (_, h, m, _) => String.eqb h header && String.eqb m method end) gen_thin_bodies with
+  | Some (_, _, _, b) => Some b
+  | None => None
+  end.
